@@ -37,7 +37,7 @@ CHECKS = {
  "C14": dict(
    category="exploration",
    text="Blocking Writer -> byte stream -> Reader run under a scripted io::Write / io::Read: every short-read/short-write split, EINTR placement, truncation offset, poison frame, hostile length prefix and max_len knob is a scripted lane step; single-fault sweeps (every cut offset, every chunk size, EINTR before every call, all 2^(n-1) compositions of short streams) give a seed-independent floor, the seeded swarm search explores the interactions. Oracle: single-copy frame log + sequential stream parser + counting allocator.",
-   note="Reader allocation is bounded by 2 x max_len (Vec growth policy) rather than max_len exactly (DESIGN.md §3 C14 a). After the first InvalidLen / UnexpectedEof / fatal error the reader phase of a run ends. Payload codec is the library's own.",
+   note="Needs the fix: commit e713753 in /repo (Reader reserved by Vec's amortised growth and could hold a buffer of nearly 2 x max_len; see known_findings.json). The allocation clause is literal: frame-buffer capacity <= max(max_len, caller-provided capacity). After the first InvalidLen / UnexpectedEof / fatal error the reader phase of a run ends. Payload codec is the library's own.",
    technique="deterministic simulation with fault injection: seeded search over scripted short reads/writes, EINTR, truncation, poison frames, hostile prefixes; single-fault sweeps; frame-log reference model",
    ref="§3 C14"),
  "C15": dict(
@@ -77,7 +77,7 @@ m = dict(
     engines=[dict(name="minisim", path="sim", serves_properties=[c["property_id"] for c in checks],
                   kind_free_text="hand-written deterministic simulator (Rust): scripted Read/Write/AsyncRead/AsyncWrite stubs, single-task executor that owns poll/cancel decisions, counting allocator, seeded scenario generator, delta-debugging minimiser, JSON replay files")],
     checks=checks,
-    notes="Technique family: deterministic simulation with fault injection. Properties whose truth is a pure function of the arguments of one call are listed under not_applicable (DESIGN.md §0, §5). known_findings.json lists recorded findings (none expected). tools/selftest.sh proves sensitivity against mutants/ and seeded/; ./check determinism proves replayability.",
+    notes="Technique family: deterministic simulation with fault injection. Properties whose truth is a pure function of the arguments of one call are listed under not_applicable (DESIGN.md §0, §5). known_findings.json: one genuine C14 defect (reader buffer growth beyond max_len), repaired by /repo commit e713753 (fix:); no open findings. tools/selftest.sh proves sensitivity against mutants/ and seeded/; ./check determinism proves replayability.",
     not_applicable=na)
 json.dump(m, open(os.path.join(here, "MANIFEST.json"), "w"), indent=1)
 print("MANIFEST.json:", [c["property_id"] for c in checks], "NA:", len(na))
